@@ -697,9 +697,11 @@ impl MqttState {
         // set await flag. This instructs eventloop to stop
         // processing requests until all the inflight publishes
         // are acked
-        if next_pkid == self.max_outgoing_inflight {
+        // (`>=`: a CONNACK can lower the limit below the last id handed out; ids must not
+        // run past the window, and never past the inflight queue)
+        if next_pkid >= self.max_outgoing_inflight {
             self.last_pkid = 0;
-            return next_pkid;
+            return next_pkid.min(self.max_outgoing_inflight);
         }
 
         self.last_pkid = next_pkid;
